@@ -380,7 +380,7 @@ fn compare_obs(t: &mut Tally, case: &Value, board: &Board, exp: &Value, moved: b
 }
 
 pub fn replay_pos(opts: &Opts) -> i32 {
-    let roots = read_json_file(&opts.str("roots", "/verif/spec/roots.json"));
+    let roots = read_json_file(&opts.str("roots", &crate::util::default_roots()));
     let probe_every = opts.num("probe-every", 8);
     let tag = opts.str("tag", "POS");
     let mut t = Tally::new();
@@ -472,7 +472,7 @@ fn is_interesting(board: &Board, c: u32) -> bool {
 }
 
 pub fn record_walk(opts: &Opts) -> i32 {
-    let roots = read_json_file(&opts.str("roots", "/verif/spec/roots.json"));
+    let roots = read_json_file(&opts.str("roots", &crate::util::default_roots()));
     let seed = opts.num("seed", 1);
     let walks = opts.num("walks", 10);
     let plies = opts.num("plies", 60);
@@ -670,7 +670,7 @@ fn exercise(board: &Board) {
 }
 
 pub fn record_fen(opts: &Opts) -> i32 {
-    let roots = read_json_file(&opts.str("roots", "/verif/spec/roots.json"));
+    let roots = read_json_file(&opts.str("roots", &crate::util::default_roots()));
     let seed = opts.num("seed", 1);
     let shard = opts.num("shard", 0);
     let shards = opts.num("shards", 1);
@@ -885,7 +885,7 @@ pub fn replay_clocks(_opts: &Opts) -> i32 {
 // ------------------------------------------------------------------------------------------------
 
 pub fn sweep_twin(opts: &Opts) -> i32 {
-    let roots = read_json_file(&opts.str("roots", "/verif/spec/roots.json"));
+    let roots = read_json_file(&opts.str("roots", &crate::util::default_roots()));
     let seed = opts.num("seed", 1);
     let shard = opts.num("shard", 0);
     let walks = opts.num("walks", 500);
